@@ -225,6 +225,12 @@ class NormDomain(Domain):
                 return Unknown('conj')
         if dotted in ELEMENTWISE_ID and args:
             return args[0]
+        if dotted == 'builtins.len' and args and isinstance(args[0], Sym):
+            return self.func_atom('len', [args[0]])
+        if dotted in ('numpy.zeros_like',) and args and isinstance(args[0], Sym):
+            return Const(0)
+        if dotted in ('numpy.ones_like',) and args and isinstance(args[0], Sym):
+            return Const(1)
         if dotted == 'builtins.hasattr' and len(args) == 2 and isinstance(args[0], Sym) and isinstance(args[1], Const) \
                 and getattr(self, 'scalar_mode', True) and args[1].v in ('__len__', 'ndim', 'shape', '__iter__'):
             # the analysed context is the scalar (elementwise) one; batch plumbing is declined
